@@ -737,7 +737,7 @@ func (r *runner) pass(po passOpts) {
 
 // Run is the C15 check.
 func Run(ctx *core.Ctx) {
-	ctx.Rule = "command table (commands.json + undocumented dispatcher names, valid arguments on a seeded dataset) x wrappers {plain, TIMEOUT, EVAL/EVALRO/EVALNA and SHA forms, EVAL_CMD rebinding, TIMEOUT+script, script-inner TIMEOUT, pcall} x transports {RESP, RESP with JSON output, HTTP}; each cell is first run on a plain leader from the reseeded dataset (dump + aof_size + file bytes before/after = measured 'data-modifying'), then in every gated mode {follower never caught up, caught-up follower, READONLY, requirepass unauthenticated} with the reply class and dump/aof_size/file bytes compared per cell; wrong-password and protected-mode probes separately. distinct key = (mode, command, wrapper, transport/output)"
+	ctx.Rule = "command table (commands.json + undocumented dispatcher names, valid arguments on a seeded dataset) x wrappers {plain, TIMEOUT, EVAL/EVALRO/EVALNA and SHA forms, EVAL_CMD rebinding, TIMEOUT+script, script-inner TIMEOUT, pcall} x transports {RESP, RESP with JSON output, HTTP}; each cell is first run on a plain leader from the reseeded dataset (dump + aof_size + file bytes before/after = measured 'data-modifying'), then in every gated mode {follower never caught up, caught-up follower, READONLY, requirepass unauthenticated} with the reply class and dump/aof_size/file bytes compared per cell; wrong-password, run-time password (connections opened, idle or used, before CONFIG SET requirepass) and protected-mode probes separately; a follower throttled in the middle of its first synchronisation is probed with reads and searches while its log is shorter than the leader's. distinct key = (mode, command, wrapper, transport/output)"
 	ctx.Assumptions = []string{
 		"'data-modifying' is measured, not listed: a cell that changes dump, aof_size or appendonly.aof on the plain leader; AOFSHRINK (rewrites the file, not the dataset) is recorded but not judged",
 		"'object reads and searches' = GET FGET JGET SCAN SEARCH NEARBY WITHIN INTERSECTS BOUNDS TTL TYPE KEYS EXISTS FEXISTS and their wrapped forms; any error reply counts as refusal",
@@ -815,6 +815,8 @@ func Run(ctx *core.Ctx) {
 		if st == 0 && !r.abort {
 			ctx.Logf("password probes")
 			r.passwordProbes(password)
+			r.runtimePasswordProbe(password)
+			r.partialSyncProbe()
 			ctx.Logf("protected mode probes")
 			r.protectedProbes(password)
 		}
